@@ -380,6 +380,9 @@ private:
   static const uint8_t NULL_8 = 0;
   static const uint32_t NULL_32 = 0;
 
+  // takes the table: all zeros for a new sketch, or as read from an image
+  count_min_sketch(uint8_t num_hashes, uint32_t num_buckets, uint64_t seed, std::vector<W, Allocator>&& table);
+
   /**
    * Throws an error if the header is not valid.
    * @param preamble_longs
